@@ -135,7 +135,7 @@ def cases(draw, convs=S.ALL_CONVS):
                       "dims": [f"@{q}" for q in range(n_grid)] + ([tdim] if with_time else []),
                       "dtype": "f8", "fill": None})
     spec["vars"] = variables
-    spec["mode"] = draw(st.sampled_from(["decoded", "dask"])) if with_time else draw(st.sampled_from(["raw", "decoded", "dask"]))
+    spec["mode"] = draw(st.sampled_from(["decoded", "dask", "file"])) if with_time else draw(st.sampled_from(["raw", "decoded", "dask", "file"]))
     route = draw(st.sampled_from(["function", "accessor"])) if with_time else "function"
     return {"spec": spec, "route": route}
 
